@@ -115,13 +115,19 @@ def make_cache(case, ctx, sched=None):
             cu.RLock = lambda *a, **k: threadsim.SimLock(sched)
         else:
             cu.RLock = lambda *a, **k: threadsim.SimRLock(sched)
+    import threading
+    saved = (threading.RLock, threading.Lock)
+    if sched is not None:
+        # a refactor may create its lock through the threading module at construction time
+        threading.RLock = lambda *a, **k: threadsim.SimRLock(sched)
+        threading.Lock = lambda *a, **k: threadsim.SimLock(sched)
     try:
         c = cls(max_size=case['max_size'], on_miss=ctx.make_on_miss(case.get('on_miss', 'none')))
     finally:
-        pass
+        threading.RLock, threading.Lock = saved
     if sched is not None:
-        # a refactor may create its lock some other way: replace any real lock found
-        for name, val in list(vars(c).items()):
+        # ... or some other way: replace any real lock object found on the instance
+        for name, val in list(getattr(c, '__dict__', {}).items()):
             if isinstance(val, _REAL_LOCK_TYPES):
                 setattr(c, name, threadsim.SimRLock(sched) if 'RLock' in type(val).__name__
                         else threadsim.SimLock(sched))
